@@ -501,14 +501,15 @@ def run_sample_ties(ctx, acc):
                         v = bits(r)
                     except Exception as ex:  # noqa: BLE001
                         v = type(ex).__name__; r = None
-                    meta = {'kind': 'sample', 'code': list(spec), 'decoder': [dspec[0], dict(dspec[1])],
+                    dname = cls.__name__[:-len('Decoder')]
+                    meta = {'kind': 'sample', 'code': list(spec), 'decoder': [dname, dict(dspec[1])],
                             'syndrome': bits(s), 'error': bits(e)}
                     ctx.case('c02 ' + op.format(*spec[1:]) + ' ' + bits(s), v, nontrivial=bool(np.any(s)), meta=meta)
                     if r is not None:
                         ok, why = judge(S, s, r)
                         if not ok:
                             fail(ctx, acc, '{}.sample_recovery: {}'.format(cls.__name__, why),
-                                 {'code': list(spec), 'decoder': [dspec[0], dict(dspec[1])], 'error_model': ['dep'],
+                                 {'code': list(spec), 'decoder': [dname, dict(dspec[1])], 'error_model': ['dep'],
                                   'p': 0.1, 'error': bits(e), 'syndrome': bits(s)}, None)
 
 
